@@ -25,7 +25,7 @@ Import ListNotations.
 
 IMPORTS = ("Scalar Outcome Support Poly Spline Ops Forms Generator Interp Spec Spec_Ops Spec_Gen "
            "Proofs_Support Proofs_Scalar Proofs_Poly Proofs_Binom Proofs_Eval Proofs_Outcome Proofs_Spline "
-           "Proofs_Forms Proofs_Ops Proofs_Forms2 Proofs_Interp Proofs_Pred Proofs_Gen Instances Instances_Ext Proofs_Valid Solver Pool Quad Proofs_Pool Proofs_Quad Proofs_Sites Proofs_Rounded Proofs_Threads Proofs_Updates Examples Proofs_Examples Proofs_Analysis Proofs_SupportGen Proofs_Smooth Proofs_Laws")
+           "Proofs_Forms Proofs_Ops Proofs_Forms2 Proofs_Interp Proofs_Pred Proofs_Gen Instances Instances_Ext Proofs_Valid Solver Pool Quad Proofs_Pool Proofs_Quad Proofs_Rounded Proofs_Threads Proofs_Updates Examples Proofs_Examples Proofs_Analysis Proofs_Smooth Proofs_Laws")
 
 TABLE = {
     "C02": ("evaluation returns the value of the stored piecewise polynomial", """
@@ -417,9 +417,9 @@ TABLE = {
 }
 
 
-def coq_types(names, implicit=False):
+def coq_types(names, implicit=False, imports=None):
     src = ["From Coq Require Import List NArith ZArith Arith Bool.",
-           f"From BSpl Require Import {IMPORTS}.", "Import ListNotations.", "Set Printing Width 110.",
+           f"From BSpl Require Import {imports or IMPORTS}.", "Import ListNotations.", "Set Printing Width 110.",
            "Set Printing Depth 1000."] + (["Set Printing Implicit."] if implicit else [])
     for n in names:
         src.append('Goal True. idtac "=====MARK". Abort.')
@@ -457,8 +457,10 @@ def main():
     for pid, (title, blurb, thms) in TABLE.items():
         if only and pid not in only:
             continue
-        types, out = coq_types([l for _, l in thms], implicit=(pid == 'C16' or pid.endswith('_R')))
-        parts = [HEAD.format(pid=pid, title=f"{pid}: {title}.", blurb=blurb.strip("\n"), imports=IMPORTS)]
+        types, out = coq_types([l for _, l in thms], implicit=(pid == 'C16' or pid.endswith('_R')),
+                               imports=IMPORTS + (" Proofs_Sites" if pid in ("C09", "C18") else ""))
+        imports = IMPORTS + (" Proofs_Sites" if pid in ("C09", "C18") else "")
+        parts = [HEAD.format(pid=pid, title=f"{pid}: {title}.", blurb=blurb.strip("\n"), imports=imports)]
         for name, lemma in thms:
             if lemma not in types:
                 print("MISSING", lemma, out[-2000:])
